@@ -6,8 +6,8 @@ from harness.core import cbool, clist, copt, cz, czlist
 ID = "C15"
 MODEL_TARGETS = ["C15/Cases.vo"]
 PROOF_TARGETS = ["C15/Lemmas.vo", "C15/Proofs.vo", "C15/Long.vo", "C15/Paths.vo", "C15/Main.vo", "C15/Layout.vo",
-                 "C15/History.vo", "C15/Prims.vo", "C15/Gen.vo", "C15/Bridge.vo"]
-OBLIGATION_FILES = ["C15/Bridge.v"]
+                 "C15/History.vo", "C15/Prims.vo", "C15/Gen.vo", "C15/Bridge.vo", "C15/BridgeMI.vo", "C15/BridgeAll.vo"]
+OBLIGATION_FILES = ["C15/Bridge.v", "C15/BridgeMI.v"]
 PROPS_FILE = "C15/Props.v"
 SHARD = 120
 RULE = ("every typed conversion path of length 1..3 over the five containers (nested / 3-D / "
